@@ -21,7 +21,7 @@ RULE = ("real threaded gateway (threading.Timer chain on the simulated clock) an
         "was made; distinct = distinct run digests")
 TIERS = {
     "quick": {"runs": 1200, "max_wall": 240, "minimise_s": 25, "chunk": 25},
-    "thorough": {"runs": 60000, "max_wall": 3000, "minimise_s": 60, "chunk": 100},
+    "thorough": {"runs": 40000, "max_wall": 3000, "minimise_s": 60, "chunk": 100},
 }
 FAULT_KINDS = ["EIO", "ENOSPC (short write)", "EACCES", "mutation during serialisation (schedule)", "mutation between write and flag clear"]
 REAL = ["mysensors.task (_schedule_factory of SyncTasks and AsyncTasks, stop)", "mysensors.persistence", "pickle / json serialisers", "pump, reader, handlers"]
